@@ -19,6 +19,7 @@ type VerifEntry struct {
 	StoreBytes   uint8
 	Immediate    uint8
 	InstrType    uint64
+	Uimm         bool
 }
 
 // VerifTable lists all instruction table entries of variant v in table order
@@ -40,6 +41,7 @@ func VerifTable(v Variant) []VerifEntry {
 				StoreBytes:   t.storeBytes,
 				Immediate:    uint8(t.immediate),
 				InstrType:    uint64(t.instrType),
+				Uimm:         t.uimm,
 			})
 		}
 	}
